@@ -18,7 +18,7 @@ import (
 
 // C05 — bundle diff and in-place update are exact (E2: all 729 ordered pairs of trees over 3 paths x {absent,c1,c2}).
 
-var c05paths = []string{"p", "q", "d/r"}
+var c05paths = []string{"+p", "q", "d/r"} // "+p" sorts before ".datamon/", the others after
 var c05contents = [][]byte{nil, []byte("content-1"), pattern("rep", 150, 64)}
 
 func c05tree(n int) map[string][]byte {
@@ -50,7 +50,7 @@ func c05treeDesc(t map[string][]byte) string {
 func TestC05(t *testing.T) {
 	rep := lib.NewReport("C05", "exploration")
 	defer rep.Finish(t)
-	rep.Rule = "trees = all maps from {p,q,d/r} to {absent,c1,c2} (27); ALL 729 ordered pairs (A,B) (identical, disjoint, same path same/different content, same content under another path, empty either side): core.Diff (archive vs archive, and local copy vs archive) = set computed from the two maps, each path once with the right type and entries; core.Update(target=B, local copy of A) leaves the destination (data files and .datamon metadata) byte-identical to a fresh Publish of B; destination stores: map store and localfs; distinct = distinct (A,B) pairs"
+	rep.Rule = "trees = all maps from {+p (sorts before .datamon), q, d/r} to {absent,c1,c2} (27); ALL 729 ordered pairs (A,B) (identical, disjoint, same path same/different content, same content under another path, empty either side): core.Diff (archive vs archive, and local copy vs archive) = set computed from the two maps, each path once with the right type and entries; core.Update(target=B, local copy of A) leaves the destination (data files and .datamon metadata) byte-identical to a fresh Publish of B; destination stores: map store and localfs; distinct = distinct (A,B) pairs"
 	L := 64
 	w := NewWorld()
 	w.Blob.NoJournal = true
